@@ -70,3 +70,27 @@ NOT_APPLICABLE = {
     "C30": "transition logic lives in closures calling mmap (FFI) inside bulk_transition_state over 8192-entry lazily allocated slabs; stubbing the OS and trait-object storage would leave little of the real path. The group-by it relies on is C40",
     "C39": "string grammars through regex/to_lowercase/str::parse/String: Verus rejects str byte reasoning, Kani explodes on regex/Unicode tables; the 3-line validate-then-assign would not carry the property",
 }
+
+PROPS["C23"] = {
+    "level": "proof",
+    "anchors": [("compare_exchange", "src/util/metadata/header_metadata.rs"), ("fetch_update", "src/util/metadata/header_metadata.rs"),
+                ("set_bits_to_u8", "src/util/metadata/header_metadata.rs"), ("HeaderMetadataSpec", "src/util/metadata/header_metadata.rs")],
+    "kani": {"prefix": "c23_", "files": ["c23_header.rs"], "timeout_quick": 600, "timeout_thorough": 1800},
+    "functions": ["HeaderMetadataSpec::{load, load_atomic, store, store_atomic, compare_exchange, fetch_add, fetch_sub, fetch_and, "
+                  "fetch_or, fetch_update} for T in {u8 (sub-byte and 8-bit), u16, u32, u64, usize}",
+                  "private helpers reached through them: get_shift_and_mask_for_bits, get_bits_from_u8, set_bits_to_u8, "
+                  "truncate_bits_in_u8, fetch_ops_on_bits, meta_addr, assert_spec, assert_mask (live as obligations)"],
+    "explanation": "Each harness runs the real accessor on a 24-byte fully symbolic header window with a symbolic spec "
+                   "(bit_offset in [-64,63]; 1..=7 bits inside one byte, or a naturally aligned 8/16/32/64-bit field with a symbolic "
+                   "optional mask) and symbolic operands, and asserts: returned value == previous field value only; field afterwards == "
+                   "the operation's arithmetic; every bit outside the field is unchanged. Loop-free except std's fetch_update retry "
+                   "loop (exits after one iteration sequentially; unwinding assertion on). Because every operation is shown to be "
+                   "exactly its abstract field operation on an arbitrary header image, sequences compose by induction.",
+    "bounds": ["bit_offset restricted to [-64, 63] (one word either side of the header address): the accessors' address arithmetic is "
+               "header + (bit_offset >> 3), uniform in the offset"],
+    "assumptions": ["compare-exchange operands are values of the field (fit in the field width / inside the mask)",
+                    "sub-byte store operand fits the field (mmtk's own debug_assert in set_bits_to_u8)",
+                    "atomicity of each RMW and memory orderings (sequential semantics)"],
+    "trusted_base": ["core::sync::atomic operations as modelled by Kani/CBMC"],
+    "not_covered": ["mixed widths (num_of_bits != bit size of T for byte-or-wider specs)"],
+}
